@@ -138,6 +138,80 @@ OpMenu ==
         [op |-> "loc", a |-> 0, b |-> 1], [op |-> "loc", a |-> 1, b |-> 1], [op |-> "loc", a |-> 1, b |-> 3],
         [op |-> "loc", a |-> 0 - 1, b |-> 0], [op |-> "loc", a |-> 2, b |-> 0], [op |-> "loc", a |-> 3, b |-> 1], [op |-> "loc", a |-> 3, b |-> NA] >>
 
+(* Two systematic families of two-step programs (field tag), enumerated completely:
+
+   "proj-after"    every operation through which dask pushes a column projection (frame-wide fillna / clip /
+                   isna / replace / round / where / mask / astype / arithmetic / comparison, a row filter, head,
+                   a label slice, assign, rename) followed by EVERY list projection of two or three of its
+                   columns in EVERY order (and one single-column list and one scalar column): the column ORDER
+                   of the result is the order of the requested list;
+   "filter-after"  every value-changing operation (fillna, replace, clip, where, mask, astype, isna,
+                   assign-overwrite, rename) followed by a row filter / Series filter / assign whose expression
+                   READS the changed column, with constants chosen so that the changed cells (the former NaN,
+                   the replaced value) SATISFY the predicate: a filter pushed below the operation would read the
+                   unchanged cells and lose exactly those rows.                                                *)
+AllCols == <<"rid", "a", "b">>
+FM(x)   == [op |-> "fmap", cols |-> AllCols, x |-> x]
+
+PassOps == <<
+  FM(FillNa(Self, 0)), FM(Clip(Self, 0, 1)), FM(U("isna", Self)), FM([e |-> "replace", x |-> Self, k |-> 1, v |-> 7]),
+  FM(U("round", Self)), FM(Where(Self, Bin("gt", Self, K(0)), NA)), FM(Mask(Self, Bin("eq", Self, K(1)), 5)),
+  FM(AsType(Self, "f")), FM(Bin("add", Self, K(1))), FM(Bin("gt", Self, K(0))), FM(U("neg", Self)),
+  [op |-> "filter", p |-> Bin("gt", A, K(0))], [op |-> "head", n |-> 4, np |-> 0 - 1], [op |-> "loc", a |-> 1, b |-> NA],
+  [op |-> "assign", name |-> "a", x |-> FillNa(A, 0)]
+>>
+
+ProjLists == <<
+  <<"rid", "a">>, <<"a", "rid">>, <<"rid", "b">>, <<"b", "rid">>, <<"a", "b">>, <<"b", "a">>,
+  <<"rid", "a", "b">>, <<"rid", "b", "a">>, <<"a", "rid", "b">>, <<"a", "b", "rid">>, <<"b", "rid", "a">>, <<"b", "a", "rid">>,
+  <<"b">>
+>>
+
+Seq2(f, g, t) == [op |-> "seq", first |-> f, second |-> g, tag |-> t]
+
+ProjAfter ==
+     [j \in 1..(Len(PassOps) * Len(ProjLists)) |->
+        Seq2(PassOps[((j - 1) \div Len(ProjLists)) + 1], [op |-> "project", cols |-> ProjLists[((j - 1) % Len(ProjLists)) + 1]], "proj-after")]
+  \o [j \in DOMAIN PassOps |-> Seq2(PassOps[j], [op |-> "series", x |-> B], "proj-after")]
+  \o << Seq2([op |-> "assign", name |-> "c", x |-> Bin("add", A, R)], [op |-> "project", cols |-> <<"c", "a">>], "proj-after"),
+        Seq2([op |-> "assign", name |-> "c", x |-> Bin("add", A, R)], [op |-> "project", cols |-> <<"b", "c", "rid">>], "proj-after"),
+        Seq2([op |-> "rename", ren |-> << <<"a", "x">> >>], [op |-> "project", cols |-> <<"x", "rid">>], "proj-after"),
+        Seq2([op |-> "rename", ren |-> << <<"a", "x">> >>], [op |-> "project", cols |-> <<"b", "x", "rid">>], "proj-after") >>
+
+\* value-changing first steps, each with predicates the CHANGED cells satisfy
+ChangeOps == <<
+  << FM(FillNa(Self, 1)),                       << Bin("ge", A, K(1)), Bin("eq", B, K(1)), Bin("and", Bin("ge", A, K(1)), Bin("ge", B, K(0))), Bin("lt", Bin("add", A, B), K(9)) >> >>,
+  << [op |-> "assign", name |-> "a", x |-> FillNa(A, 1)],   << Bin("ge", A, K(1)), Bin("eq", A, K(1)) >> >>,
+  << [op |-> "assign", name |-> "b", x |-> FillNa(B, 7)],   << Bin("gt", B, K(2)), Bin("or", Bin("gt", B, K(6)), Bin("gt", A, K(1))) >> >>,
+  << FM([e |-> "replace", x |-> Self, k |-> 0, v |-> 5]),  << Bin("gt", A, K(2)), Bin("eq", B, K(5)) >> >>,
+  << FM(Clip(Self, 1, NA)),                     << Bin("eq", A, K(1)), Bin("ge", B, K(1)) >> >>,
+  << FM(Where(Self, Bin("gt", Self, K(0)), 5)), << Bin("eq", A, K(5)), Bin("ge", B, K(5)) >> >>,
+  << FM(Mask(Self, Bin("eq", Self, K(0)), 9)),  << Bin("gt", A, K(8)), Bin("eq", B, K(9)) >> >>,
+  << FM(Mask(Self, U("isna", Self), 3)),        << Bin("eq", A, K(3)), Bin("ge", B, K(3)) >> >>,
+  << FM(AsType(FillNa(Self, 2), "i")),          << Bin("eq", A, K(2)), Bin("gt", B, K(1)) >> >>,
+  << [op |-> "assign", name |-> "a", x |-> U("isna", A)],   << A, Bin("and", A, Bin("ge", R, K(0))) >> >>,
+  << [op |-> "assign", name |-> "a", x |-> Bin("mul", A, K(3))],   << Bin("gt", A, K(2)), Bin("eq", A, K(3)) >> >>,
+  << FM(Bin("add", Self, K(1))),                << Bin("gt", A, K(2)), Bin("eq", B, K(1)) >> >>
+>>
+
+RECURSIVE FilterAfterOf(_)
+FilterAfterOf(j) ==
+  IF j = 0 THEN <<>>
+  ELSE LET v  == ChangeOps[j][1]
+           ps == ChangeOps[j][2]
+       IN FilterAfterOf(j - 1)
+          \o [q \in DOMAIN ps |-> Seq2(v, [op |-> "filter", p |-> ps[q]], "filter-after")]
+          \o << Seq2(v, [op |-> "sfilter", x |-> R, p |-> ps[1]], "filter-after"),
+                Seq2(v, [op |-> "assign", name |-> "c", x |-> Where(R, ps[1], NA)], "filter-after"),
+                Seq2(Seq2(v, [op |-> "filter", p |-> ps[1]], "filter-after"), [op |-> "project", cols |-> <<"b", "rid">>], "filter-after") >>
+FilterAfter ==
+  FilterAfterOf(Len(ChangeOps))
+  \o << Seq2([op |-> "rename", ren |-> << <<"a", "x">> >>], [op |-> "filter", p |-> Bin("gt", Col("x"), K(0))], "filter-after"),
+        [op |-> "sfilter", x |-> FillNa(A, 1), p |-> Bin("ge", FillNa(A, 1), K(1)), tag |-> "filter-after"],
+        [op |-> "sfilter", x |-> FillNa(B, 0 - 1), p |-> Bin("lt", FillNa(B, 0 - 1), K(0)), tag |-> "filter-after"] >>
+
+FamMenu == ProjAfter \o FilterAfter
+
 LOpMenu ==
      [j \in 1..6 |-> [op |-> "head", n |-> <<1, 2, 3, 1, 2, 4>>[j], np |-> <<1, 1, 1, 2, 2, 3>>[j]]]
   \o [j \in 1..3 |-> [op |-> "tail", n |-> <<1, 2, 5>>[j]]]
@@ -162,7 +236,9 @@ AOpMenu ==
 SortedIdx(T) == NonDecreasing(TIdx(T))
 
 \* the operation is inside the domain of the check for this table
-Valid(T, o) == o.op = "loc" => SortedIdx(T)
+RECURSIVE HasLoc(_)
+HasLoc(o) == o.op = "loc" \/ (o.op = "seq" /\ (HasLoc(o.first) \/ HasLoc(o.second)))
+Valid(T, o) == HasLoc(o) => SortedIdx(T)
 
 \* known divisions of the shape dask's constructors produce
 KnownOK(T, lay) ==
@@ -190,9 +266,12 @@ Next ==
   /\ LET k == case.seed
          Fam == case.fam IN
      CASE Fam = "ops" ->
-            \E j \in DOMAIN OpMenu :
-               /\ Valid(Sources[k], OpMenu[j])
-               /\ Emit([fam |-> "ops", src |-> k, op |-> OpMenu[j]], Apply(Sources[k], <<>>, OpMenu[j]))
+            \/ \E j \in DOMAIN OpMenu :
+                  /\ Valid(Sources[k], OpMenu[j])
+                  /\ Emit([fam |-> "ops", src |-> k, op |-> OpMenu[j]], Apply(Sources[k], <<>>, OpMenu[j]))
+            \/ \E j \in DOMAIN FamMenu :
+                  /\ Valid(Sources[k], FamMenu[j])
+                  /\ Emit([fam |-> "ops", src |-> k, op |-> FamMenu[j]], Apply(Sources[k], <<>>, FamMenu[j]))
        [] Fam = "lops" ->
             \E lay \in Layouts(NRows(Sources[k]), MaxParts), j \in DOMAIN LOpMenu :
                /\ (LOpMenu[j].op = "head" => LOpMenu[j].np <= Len(lay))
@@ -214,6 +293,18 @@ TableCase == IsCase /\ case.fam \in {"ops", "lops"}
 
 \* every reference result is a well-formed table
 ExpOK == (IsCase /\ case.fam # "layouts") => (exp.err \/ TableOK(exp))
+
+\* a list projection on top of anything returns exactly the requested columns in the requested order
+ProjectionOrder ==
+  (TableCase /\ case.op.op = "seq" /\ case.op.second.op = "project" /\ ~exp.err) => exp.cols = case.op.second.cols
+
+\* the filter of a "filter-after" program is evaluated on the CHANGED table: every row it keeps satisfies the predicate there
+\* (and the family is not vacuous: see FilterAfterBites in the driver's evidence, counted over all sources)
+FilterAfterSound ==
+  (TableCase /\ case.op.op = "seq" /\ case.op.second.op = "filter" /\ ~exp.err)
+     => LET mid == Apply(Tbl, <<>>, case.op.first)
+            p   == Eval(mid, case.op.second.p, "")
+        IN Len(exp.rows) = Cardinality({ k \in DOMAIN mid.rows : p.vals[k] = 1 })
 
 \* elementwise operations keep the index and the row order
 ElementwiseKeepsIndex ==
